@@ -195,6 +195,20 @@ RAISE_SETS = {
 }
 
 
+def type_alias_classes() -> list[str]:
+    """Every class whose instances are PEP 695 style aliases in this environment: typing's own and, where the installed
+    typing_extensions ships a distinct backport class, that one too."""
+    out = ["typing.TypeAliasType"] if hasattr(typing, "TypeAliasType") else []
+    try:
+        import typing_extensions as _te
+
+        if getattr(_te, "TypeAliasType", None) is not None and _te.TypeAliasType is not getattr(typing, "TypeAliasType", None):
+            out.append("typing_extensions.TypeAliasType")
+    except ImportError:
+        pass
+    return out
+
+
 def sample_instance(dotted: str):
     """An instance of a stdlib class whose attributes answer hasattr() questions about such instances (TypeVar only)."""
     if dotted == "typing.TypeVar":
